@@ -49,6 +49,12 @@ impl Rt for Crux {
     fn yield_now(&self) -> BoxFuture<'static, ()> {
         self_waking_yield()
     }
+    fn chan_send(&self, c: usize, v: u32) {
+        self.uni.chans[c].send(v)
+    }
+    fn chan_recv(&self, c: usize) -> BoxFuture<'static, u32> {
+        self.uni.chans[c].recv()
+    }
     fn export(&self, key: Path, h: JoinH) {
         self.uni.exports.lock().unwrap().push((key, h));
     }
